@@ -62,7 +62,9 @@ def gen_case(rng, tier, idx):
         return {"kind": "collect", "collect": c, "ext_seed": rng.getrandbits(32)}
     host = rng.random() < 0.3
     g = G.gen_spec(rng, tier, max_nodes=16 if tier == "quick" else 36, parts=rng.randint(1, 6), fault_rate=0.2,
-                   allow_seeded=False, host_ds=host)
+                   allow_seeded=False, host_ds=host,
+                   kinds=["plain", "plain", "implicit", "implicit", "implicit", "component", "combiner", "combiner", "condition", "incident", "fact",
+                          "rule", "rule", "datasource", "datasource", "parser", "parser", "point"])
     if rng.random() < 0.4:
         # several mutually independent consumers of one spec (or of one ordinary component) that all fail: what is
         # recorded for them, and against the spec, must not depend on which of them happens to run first
